@@ -7,6 +7,7 @@ from typing import ClassVar
 import equinox as eqx
 import jax.numpy as jnp
 import numpy as np
+from jax.errors import TracerArrayConversionError
 from jaxtyping import Array, Int
 
 from flowjax.bijections.bijection import AbstractBijection
@@ -143,6 +144,15 @@ class Partial(AbstractBijection):
                 f"indexed by 'idxs'. Bijection has shape {self.bijection.shape}, "
                 f"while the subset has a shape of {expected_shape}.",
             )
+        # JAX indexing clamps out of bounds indices and merges repeated ones silently,
+        # so we check the (concrete) indices with numpy, which raises an IndexError.
+        try:
+            counts = np.zeros(self.shape, int)
+            np.add.at(counts, self.idxs, 1)
+        except TracerArrayConversionError:
+            return
+        if counts.max(initial=0) > 1:
+            raise ValueError("idxs must not index the same element more than once.")
 
     def transform(self, x, condition=None):
         y = self.bijection.transform(x[self.idxs], condition)
